@@ -418,7 +418,7 @@ def _run_child(case):
             import tempfile
             import fs as _fs
 
-            root = tempfile.mkdtemp(prefix="moclo-verif-osfs-", dir=os.path.dirname(W["scratch"]))
+            root = tempfile.mkdtemp(prefix="moclo-verif-%d-osfs-" % os.getpid(), dir=os.path.dirname(W["scratch"]))
             tmpdirs.append(root)
             fill_real(root, d["entries"])
             stores[d["id"]] = _fs.open_fs(root)
@@ -477,7 +477,17 @@ def _do_op(sim, cat, stores, regs, models, op):
                 d = next(x for x in cat["dirs"] if x["id"] == op["dir"])
                 regs[r] = FilesystemRegistry(stores[d["id"]], resolve_class(d["base"]), tuple(d["extensions"]))
                 ci = bool(stores[d["id"]].getmeta().get("case_insensitive", False))
-                models[r] = {"kind": "dir", "keys": dir_model(d, ci), "dir": d["id"]}
+                certain = dir_model(d, False)
+                models[r] = {"kind": "dir", "keys": dict(certain), "dir": d["id"]}
+                if ci:
+                    # The store says extensions match case-insensitively (a real OSFS under fs 2.3.1
+                    # does, even on a case-sensitive disk).  Whether 'x.GB' is a plasmid file of a
+                    # registry opened for 'gb' is then left open: a registry may follow the store's
+                    # rule or match extensions itself.  Either way it must be coherent: the first
+                    # fault-free observation fixes the key set and everything must agree with it.
+                    wide = dir_model(d, True)
+                    if set(wide) != set(certain):
+                        models[r]["lo"], models[r]["hi"] = dict(certain), wide
                 ev["result"] = "ok"
             elif k == "embedded":
                 mod, cls, _ = EMBEDDED[op["kind"]]
@@ -523,9 +533,7 @@ def _do_op(sim, cat, stores, regs, models, op):
                     _propagate_growth(models, r, {kk: src for kk, src in hi.items() if kk not in before})
                     try:
                         if op.get("via") == "lshift":
-                            res = reg << member
-                            if res is not reg:
-                                raise Fail("C20.union", "registry << member did not return the registry")
+                            reg << member
                         else:
                             reg.add_registry(member)
                     except Fail:
@@ -609,7 +617,7 @@ def _do_op(sim, cat, stores, regs, models, op):
                         item = reg[key]
                     except KeyError:
                         ev["result"] = {"exc": "KeyError"}
-                        if present is True:
+                        if present is True and not sim.fired:
                             raise Fail("C20.lookup", "key %r is yielded by iteration but lookup raises KeyError" % (key,))
                     else:
                         if present is False:
@@ -638,8 +646,10 @@ def _do_op(sim, cat, stores, regs, models, op):
         except Fail as f:
             ev["fail"] = {"clause": f.clause, "detail": f.detail, "expected": f.expected, "observed": f.observed}
         except Exception as exc:
-            ev["result"] = {"exc": type(exc).__name__, "msg": str(exc)[:100]}
-            if not sim.fired:
+            ev["result"] = {"exc": type(exc).__name__}   # (no message: it may carry a scratch path)
+            if isinstance(exc, TypeError) and k in ("getitem", "contains", "get") and not isinstance(_mk_key(op.get("key")), str):
+                pass  # a key that is not a string may also be refused with TypeError
+            elif not sim.fired:
                 # an un-faulted operation must not raise (KeyError for absent keys is handled above)
                 ev["fail"] = {"clause": "C20.absent" if k in ("getitem", "contains", "get") and _model_has(models.get(r), _mk_key(op.get("key"))) is False else "C20.lookup",
                               "detail": "%s raised %s: %s" % (k, type(exc).__name__, str(exc)[:120]), "expected": "KeyError" if k == "getitem" else None, "observed": type(exc).__name__}
@@ -792,6 +802,8 @@ def execute(case):
                 probes["op-on-registry-that-saw-a-fault"] += 1
         if op["op"] in ("getitem", "contains", "get"):
             probes["key:" + op.get("key_class", "?")] += 1
+            if op.get("key_class") == "present" and group.get(op.get("r"), "").startswith("r") and isinstance(ev["result"], dict) and ev["result"].get("id"):
+                probes["directory-plasmid-looked-up"] += 1
         if op["op"] in ("iter_partial", "iter_nested"):
             probes["abandoned-iteration" if op["op"] == "iter_partial" else "nested-iteration"] += 1
         if op["op"] == "drop" and i > 0 and ops[i - 1]["op"] == "add" and ops[i - 1].get("member") == op.get("r"):
@@ -1120,7 +1132,15 @@ def gen_case(spec):
             combined.append(h)
         elif x < 0.30 and combined:
             c = g.choice(combined)
-            cands = [h for h in live if h != c]
+
+            def contains_(a_, b_, seen=()):
+                # does combination a_ (transitively) contain b_?  (no cyclic combinations: a live-union
+                # design cannot serve them, and the statement does not speak of them)
+                if a_ in seen or handles.get(a_) is None or handles[a_][0] != "combined":
+                    return False
+                return any(m_ == b_ or contains_(m_, b_, seen + (a_,)) for m_ in handles[a_][1])
+
+            cands = [h for h in live if h != c and not contains_(h, c)]
             if not cands:
                 continue
             m = g.choice(cands)
@@ -1237,7 +1257,7 @@ def catalogue_summary(case):
     return {"dirs": [{"id": d["id"], "base": d["base"], "extensions": d["extensions"], "entries": [e["name"] + ("/" if e["kind"] == "dir" else "") for e in d["entries"]]} for d in case["catalogue"]["dirs"]], "store": case.get("store")}
 
 
-EXPECTED_PROBES = {"C20": ["key:contested", "add-retried-after-fault", "temporary-member-released-after-add", "abandoned-iteration", "same-plasmid-under-two-stems", "file-with-extra-label", "add-overlapping-member", "add-repeated-member", "second-equal-embedded-instance", "key:present", "key:absent-random", "key:unsupported-ext", "key:subdir", "key:non-string", "key:key-with-extension", "op-after-fault", "op-on-registry-that-saw-a-fault"]}
+EXPECTED_PROBES = {"C20": ["directory-plasmid-looked-up", "key:contested", "add-retried-after-fault", "temporary-member-released-after-add", "abandoned-iteration", "same-plasmid-under-two-stems", "file-with-extra-label", "add-overlapping-member", "add-repeated-member", "second-equal-embedded-instance", "key:present", "key:absent-random", "key:unsupported-ext", "key:subdir", "key:non-string", "key:key-with-extension", "op-after-fault", "op-on-registry-that-saw-a-fault"]}
 
 
 def coverage_extra(prop, stats, probes):
